@@ -69,6 +69,27 @@ def ast_to_ir(node):
     raise ValueError(type(node).__name__)
 
 
+def numbers_as_text(ir, t, node):
+    """Like ast_to_ir, but number literals at transparent custom scalar positions stay what such a scalar makes
+    of them: their text."""
+    from py_gql.lang import ast as A
+
+    if t[0] == "nonnull":
+        return numbers_as_text(ir, t[1], node)
+    if t[0] == "list":
+        if isinstance(node, A.ListValue):
+            return [numbers_as_text(ir, t[1], x) for x in node.values]
+        return numbers_as_text(ir, t[1], node)
+    st = ir.types.get(t[1])
+    if st is not None and st.kind == "scalar" and not st.strict and isinstance(node, (A.IntValue, A.FloatValue)):
+        return node.value
+    if st is not None and st.kind == "input" and isinstance(node, A.ObjectValue):
+        types = dict((f.name, f.type) for f in st.input_fields)
+        return collections.OrderedDict((f.name.value, numbers_as_text(ir, types[f.name.value], f.value) if f.name.value in types
+                                        else ast_to_ir(f.value)) for f in node.fields)
+    return ast_to_ir(node)
+
+
 def same(a, b):
     if type(a) != type(b):
         if isinstance(a, (int, float)) and isinstance(b, (int, float)) and not isinstance(a, bool) and not isinstance(b, bool):
@@ -109,6 +130,19 @@ def check_default(ctx, ir, a, reported, witness, where):
     if st2 != "ok":
         return
     if st1 != "ok" or not same(got, want):
+        from ..ref import canon
+
+        # a transparent custom scalar reads a number literal as its text
+        st3, got3 = refcoerce.coerce_literal(ir, a.type, numbers_as_text(ir, a.type, node))
+        if st3 == "ok" and same(got3, want):
+            ctx.count("defaults_with_number_literal_for_custom_scalar_string")
+            return
+        nl = canon.numberlike_scalar_strings(ir)
+        if nl and st3 == "ok" and same(got3, canon.respell(want, nl)):
+            # known finding: number-like strings of custom scalars are reported as (respelled) number literals
+            ctx.violation("default:number-like-string-of-custom-scalar-reported-as-number", witness,
+                          "%s reported %r declared %r" % (where, reported, want))
+            return
         ctx.violation("default:differs:%s" % kind, witness, "%s reported %r -> %r declared %r" % (where, reported, got if st1 == "ok" else st1, want))
 
 
